@@ -106,6 +106,39 @@ func cmdC09(seed uint64, tier, outdir string) {
 			}
 		}
 	}
+	// cold starts repeated: a fresh classifier with the documented default trace configuration (no Tracer), thirty-two
+	// goroutines released together, one input each, twelve times; whatever is initialised lazily on the first traced call is
+	// initialised by several goroutines at once
+	for rep := 0; rep < 12; rep++ {
+		cold := buildCorpus(0.8, docs).c
+		cold.SetTraceConfiguration(&classifier.TraceConfiguration{TraceLicenses: "License/MIT*", TracePhases: "tokenize,score"})
+		start := make(chan struct{})
+		var wg sync.WaitGroup
+		bad := make([]string, 32)
+		for g := 0; g < 32; g++ {
+			wg.Add(1)
+			go func(g int) {
+				defer wg.Done()
+				<-start
+				for k := 0; k < 1; k++ {
+					i := (g + k + rep) % len(ins)
+					if got := fmtResults(cold.Match(ins[i].data)); got != want[i] {
+						bad[g] = fmt.Sprintf("input %s: %s vs sequential %s", ins[i].name, trunc(got, 150), trunc(want[i], 150))
+					}
+				}
+			}(g)
+		}
+		close(start)
+		wg.Wait()
+		for g := 0; g < 32; g++ {
+			cw.printf("cold default-tracer start rep=%d g=%d\n", rep, g)
+			if bad[g] == "" {
+				vw.printf("OK 1\n")
+			} else {
+				vw.printf("VIOL - cold start with the default tracer, goroutine %d: %s\n", g, bad[g])
+			}
+		}
+	}
 	vw.close()
 	cw.close()
 	fmt.Println("c09 done")
